@@ -454,7 +454,9 @@ func ms(us int64) string { return fmt.Sprintf("%.1f", float64(us)/1000) }
 //	Delays (late scheduling of the broker, of the client's reader, of timers) can only make a close LATER and a
 //	packet's arrival LATER, so "closed early, relative to the last packet sent before it" needs no allowance;
 //	"survives a safe interval" and "closed in time" are asserted only if four times the worst scheduling delay
-//	measured around that interval, plus 40 ms, fits in the margin.
+//	measured around that interval, plus 40 ms, is no more than the distance the delays would have to bridge: 1.5K minus
+//	the measured gap for a survived interval, the measured lateness beyond 1.5K for a late or missing close (both
+//	distances are at least the margin).
 func c37Judge(cn c37Conn, o c37Obs, j *c37Jitter) (c37Verdict, []evid.Disc) {
 	v := c37Verdict{CloseOffUs: -1}
 	desc := func() string {
@@ -507,12 +509,12 @@ func c37Judge(cn c37Conn, o c37Obs, j *c37Jitter) (c37Verdict, []evid.Disc) {
 	if o.FeedSilent >= 3 && o.FeedMaxGap <= int64(cn.K)*1000*1000 {
 		v.Receiving, recv = true, "-while-receiving"
 	}
-	jitOK := func(from, to int64) bool {
+	jitOK := func(from, to, slack int64) bool {
 		jit := j.over(from, to)
 		if jit > v.JitterUs {
 			v.JitterUs = jit
 		}
-		return 4*jit+40000 <= M
+		return 4*jit+40000 <= slack
 	}
 	n := len(o.B)
 	survivedLong := false // survived a gap of at least K seconds: would be fatal with a factor of 1 instead of 1.5
@@ -540,7 +542,7 @@ func c37Judge(cn c37Conn, o c37Obs, j *c37Jitter) (c37Verdict, []evid.Disc) {
 				return v, []evid.Disc{evid.D(sig, "closed %s ms after the last packet sent before the close (interval %d); 1.5 x K = %s ms, margin %s ms: %s",
 					ms(off), i, ms(B), ms(M), desc())}
 			case offA > B+M:
-				if !jitOK(o.A[i], o.Close) {
+				if !jitOK(o.A[i], o.Close, offA-B) { // the lateness is what delays would have to explain
 					v.Class = "dropped-jitter"
 					return v, nil
 				}
@@ -557,7 +559,7 @@ func c37Judge(cn c37Conn, o c37Obs, j *c37Jitter) (c37Verdict, []evid.Disc) {
 		hi, lo := na-o.B[i], nb-o.A[i]
 		switch {
 		case hi <= B-M:
-			if !jitOK(o.B[i], na) {
+			if !jitOK(o.B[i], na, B-hi) { // the packet would have to be delayed by this much to miss 1.5 x K
 				v.Class = "dropped-jitter"
 				return v, nil
 			}
@@ -572,7 +574,7 @@ func c37Judge(cn c37Conn, o c37Obs, j *c37Jitter) (c37Verdict, []evid.Disc) {
 				survivedLong = true
 			}
 		case lo >= B+M:
-			if !jitOK(o.A[i], nb) {
+			if !jitOK(o.A[i], nb, lo-B) { // the lateness is what delays would have to explain
 				v.Class = "dropped-jitter"
 				return v, nil
 			}
@@ -617,7 +619,7 @@ type c37Stats struct {
 var c37S = c37Stats{closeOff: map[int][]int64{}}
 
 // c37Execute runs all connections of a case concurrently against a fresh broker and returns what was measured.
-func c37Execute(c c37Case, r *evid.Rec) ([]c37Obs, *c37Jitter, bool) {
+func c37Execute(c c37Case, r *evid.Rec) ([]c37Obs, *c37Jitter, bool, bool) {
 	srv := mqtt.New(&mqtt.Options{Logger: slog.New(slog.NewTextHandler(io.Discard, &slog.HandlerOptions{Level: slog.LevelError + 4}))})
 	_ = srv.AddHook(new(auth.AllowHook), nil)
 	var hwg sync.WaitGroup
@@ -674,7 +676,8 @@ func c37Execute(c c37Case, r *evid.Rec) ([]c37Obs, *c37Jitter, bool) {
 	e.horizon = e.begin.Add(time.Duration(c.HorizonMs) * time.Millisecond)
 
 	feedStop, feedDone := make(chan struct{}), make(chan struct{})
-	go func() { defer close(feedDone); c37Feed(e, c.FeedMs, feedConn, feedStop, r) }()
+	feedOK := true
+	go func() { defer close(feedDone); feedOK = c37Feed(e, c.FeedMs, feedConn, feedStop, r) }()
 	obs := make([]c37Obs, len(c.Conns))
 	var wg sync.WaitGroup
 	for i := range c.Conns {
@@ -696,26 +699,26 @@ func c37Execute(c c37Case, r *evid.Rec) ([]c37Obs, *c37Jitter, bool) {
 		r.Label("broker-handlers-slow-to-return")
 	}
 	_ = srv.Close()
-	return obs, jit, e.tcpAddr != ""
+	return obs, jit, e.tcpAddr != "", feedOK
 }
 
 // c37Feed is the publisher of the case: a keepalive-0 connection on a pipe that sends one QoS 0 message to the feed
 // topic every periodMs from the start of the scripts until the last scripted connection has finished. It is not judged.
-func c37Feed(e *c37Env, periodMs int, c net.Conn, stop <-chan struct{}, r *evid.Rec) {
+func c37Feed(e *c37Env, periodMs int, c net.Conn, stop <-chan struct{}, r *evid.Rec) bool {
 	if periodMs <= 0 || c == nil {
-		return
+		return true
 	}
 	defer c.Close()
 	go func() { _, _ = io.Copy(io.Discard, c) }()
 	time.Sleep(time.Until(e.begin))
 	write := func(p []byte) bool {
-		_ = c.SetWriteDeadline(time.Now().Add(2500 * time.Millisecond))
+		_ = c.SetWriteDeadline(time.Now().Add(4 * time.Second))
 		_, err := c.Write(p)
 		return err == nil
 	}
 	if !write(c37Connect(c37Conn{K: 0, Ver: 4}, "c37-feed")) {
 		r.Label("feed-publisher-failed")
-		return
+		return false
 	}
 	body := append([]byte{0, byte(len(c37FeedTopic))}, c37FeedTopic...)
 	pk := append([]byte{0x30, byte(len(body) + 1)}, append(body, 'f')...)
@@ -724,27 +727,37 @@ func c37Feed(e *c37Env, periodMs int, c net.Conn, stop <-chan struct{}, r *evid.
 	for {
 		select {
 		case <-stop:
-			return
+			return true
 		case <-tk.C:
 			if !write(pk) {
 				r.Label("feed-publisher-failed")
-				return
+				return false
 			}
 		}
 	}
 }
 
+// c37Family maps a signature to what a re-run must show again: "still open at 1.5K + margin" whether the close came
+// late or not at all, and whether or not the re-run's deliveries were dense enough for the -while-receiving suffix.
+func c37Family(sig string) string {
+	sig = strings.TrimSuffix(sig, "-while-receiving")
+	return strings.Replace(sig, "C37-closed-late-", "C37-not-closed-", 1)
+}
+
 // c37Confirmations: a discrepancy is reported only if the same connection script, re-run in a fresh small case,
 // shows the same signature again this many times. The mechanism under test is deterministic arithmetic on a
 // deadline, so a genuine defect repeats; a scheduling accident that slipped past the delay probes does not.
-const c37Confirmations = 2
+const (
+	c37Confirmations = 2
+	c37Reruns        = 6
+)
 
 func c37Check(c c37Case, r *evid.Rec) []evid.Disc {
 	if len(c.Conns) == 0 {
 		return nil
 	}
 	start := time.Now()
-	obs, jit, tcpOK := c37Execute(c, r)
+	obs, jit, tcpOK, _ := c37Execute(c, r)
 
 	verdicts := make([]c37Verdict, len(c.Conns))
 	discs := make([][]evid.Disc, len(c.Conns))
@@ -758,31 +771,46 @@ func c37Check(c c37Case, r *evid.Rec) []evid.Disc {
 			}
 		}
 	}
-	for round := 0; round < c37Confirmations && len(suspects) > 0; round++ {
+	// pending suspects are re-run together; a re-run in which the connection was not judged at all (dropped for
+	// scheduling delay, harness failure) neither confirms nor refutes and is repeated, at most c37Reruns re-runs in all
+	confirmed := map[int]int{}
+	drop := func(i int, why, class string) {
+		r.Label(why + " " + discs[i][0].Sig)
+		fmt.Printf("C37: %s (re-run verdict: %s), dropped: [%s] %s\n", why, class, discs[i][0].Sig, discs[i][0].Msg)
+		verdicts[i].Asserted, verdicts[i].NonTrivial, verdicts[i].Class = false, false, "dropped-"+why
+		discs[i] = nil
+	}
+	for round := 0; round < c37Reruns && len(suspects) > 0; round++ {
 		sub := c37Case{HorizonMs: c.HorizonMs, FeedMs: c.FeedMs}
 		for _, i := range suspects {
 			sub.Conns = append(sub.Conns, c.Conns[i])
 		}
-		o2, j2, _ := c37Execute(sub, r)
+		o2, j2, _, feedOK := c37Execute(sub, r)
 		var still []int
 		for n, i := range suspects {
-			_, d2 := c37Judge(sub.Conns[n], o2[n], j2)
+			v2, d2 := c37Judge(sub.Conns[n], o2[n], j2)
 			same := false
 			for _, d := range d2 {
 				for _, d0 := range discs[i] {
-					same = same || d.Sig == d0.Sig
+					same = same || c37Family(d.Sig) == c37Family(d0.Sig)
 				}
 			}
-			if same {
-				still = append(still, i)
-				continue
+			switch {
+			case same:
+				confirmed[i]++
+				if confirmed[i] < c37Confirmations {
+					still = append(still, i)
+				}
+			case (!v2.Asserted && len(d2) == 0) || !feedOK:
+				still = append(still, i) // not judged this time, or the re-run lost its publisher
+			default:
+				drop(i, "discrepancy-not-reproduced", v2.Class)
 			}
-			r.Label("discrepancy-not-reproduced " + discs[i][0].Sig)
-			fmt.Printf("C37: discrepancy not reproduced on re-run, dropped: [%s] %s\n", discs[i][0].Sig, discs[i][0].Msg)
-			verdicts[i].Asserted, verdicts[i].NonTrivial, verdicts[i].Class = false, false, "dropped-not-reproduced"
-			discs[i] = nil
 		}
 		suspects = still
+	}
+	for _, i := range suspects {
+		drop(i, "discrepancy-unconfirmed-too-noisy", "not judged")
 	}
 
 	var ds []evid.Disc
@@ -959,7 +987,7 @@ func TestC37(t *testing.T) {
 		"A quarter of the K > 0 connections first SUBSCRIBE (QoS 0) to a feed topic on which a separate keepalive-0 publisher sends a message every 200-400 ms all case long, so that they keep RECEIVING while silent (label receiving-while-silent: >= 3 deliveries during the final silence, never more than K seconds apart); only packets FROM the client count, the oracle is the same. "+
 		"Oracle on MEASURED send and close times with boundary 1.5 x K and margin max(K/4, 0.4 s): every gap <= 1.5K - margin must be survived; after a gap or silence >= 1.5K + margin the "+
 		"connection must have been closed, not earlier than 1.5K - margin after the last packet; K = 0 is never closed. Connections whose measured gaps fall inside a margin, or whose intervals saw a "+
-		"scheduling delay with 4 x delay + 40 ms > margin (sleeper probes and deadline canaries run with every case), are dropped and counted as not asserted. "+
+		"scheduling delay with 4 x delay + 40 ms > |measured gap or lateness - 1.5K| (sleeper probes and deadline canaries run with every case), are dropped and counted as not asserted. "+
 		"Non-trivial = a closure that was judged against the window, or a connection that provably survived a gap >= K seconds (fatal with a factor of 1), or a K = 0 connection silent for >= 1.9 s; "+
 		"distinct by (K, version, transport, gaps at 50 ms resolution, packet kinds). A discrepancy is reported only after the same script reproduced it in two fresh re-runs")
 	defer r.Finish(t)
